@@ -1,12 +1,16 @@
 /-
   Property C06 — A partitioned (parallel) data set reads as the whole data set.
-  Only property theorems live here; helper lemmas are in FcProofs/Lemmas/{Merge,MergeStructured}.lean.
+  Only property theorems live here; helper lemmas are in
+  FcProofs/Lemmas/{Merge,MergeStep,MergeStructured,MergeDecomposition,MergeDecomposition3,MergeRead,MergeHyp}.lean.
 
   Model:  `Fc.merge1`, `Fc.mergeAll`, `Fc.mapDuplicatePoints`, `Fc.mapExternal`, `Fc.filterExternal`
           (FcModel/Merge.lean — mesh/_transformations.py merge/_merge/…),
-          `Fc.mergeStructured`, `Fc.pieceEntityIndices`, `Fc.structuredDecomposition`
-          (FcModel/StructuredMerge.lean — StructuredFieldMerger, _get_structured_decomposition)
-  Spec:   `Fc.Spec.readsAsWhole`, `Fc.Spec.isPartition`, `Fc.Spec.wholeField`, `Fc.Spec.restrictField`
+          `Fc.C06.mergeStructured`, `pieceEntityIndices`, `structuredDecomposition`, `pvtkMergeField`,
+          `pvtrOrdinates`, `pvtiMesh`, `pvtsPoints`, `pvtkReadStructured`
+          (FcModel/StructuredMerge.lean — StructuredFieldMerger, _get_structured_decomposition,
+          _merge_structured and the three _make_structured_mesh of io/vtk/_pvtk_readers.py)
+  Spec:   `Fc.C06.Spec.readsAsWhole`, `isPartition`, `wholeField`, `restrictField`; for the structured
+          theorems `decompOk`, `meshedDirs`, `mergerOf`, `restrictLoc`, `pieceFile`, `wholeRead`, `wholeOk`
 -/
 import FcProofs.Lemmas.Merge
 import FcProofs.Lemmas.MergeStep
